@@ -1520,6 +1520,37 @@ impl Vm {
 
   /// call a class creating a new instance of that class
   unsafe fn call_class(&mut self, class: ObjRef<Class>, arg_count: u8) -> ExecutionSignal { unsafe {
+    // the methods of the primitive classes (and of every meta class, a subclass of Class) work on
+    // the primitive's own representation which a plain instance does not have
+    let primitives = &self.builtin.primitives;
+    let primitive_classes = [
+      primitives.nil,
+      primitives.bool,
+      primitives.channel,
+      primitives.class,
+      primitives.fun,
+      primitives.number,
+      primitives.string,
+      primitives.list,
+      primitives.tuple,
+      primitives.map,
+      primitives.iter,
+      primitives.closure,
+      primitives.method,
+      primitives.native_fun,
+    ];
+
+    let mut current = Some(class);
+    while let Some(ancestor) = current {
+      if primitive_classes.contains(&ancestor) {
+        return self.runtime_error_from_str(
+          self.builtin.errors.runtime,
+          &format!("Cannot construct an instance of builtin class {}.", ancestor.name()),
+        );
+      }
+      current = *ancestor.super_class();
+    }
+
     let instance = val!(self.manage_obj(class));
     self.fiber.peek_set(arg_count as usize, instance);
 
